@@ -44,6 +44,7 @@ class Node:
         self.obj = obj
         self.kids = {}          # name -> Node | TokHandle
         self.shadow = set()     # names under which a lower layer of `handles` holds a shadowed handle
+        self.was_shared = False     # has had two owners at some point: its parent/key are not prescribed any more
 
 
 MISSING = object()
@@ -180,6 +181,7 @@ def show(comps):
 def oracle(sp, m, root, alphabet, depth, clauses, when):
     paths = set(all_keys(alphabet, depth))
     paths.update(p for p, _ in model_paths(root))
+    shared_below = {i for i, w in slots(root).items() if len(w) > 1} or None
     for comps in sorted(paths):
         key = show(comps)
         exp = model_lookup(root, comps)
@@ -228,6 +230,9 @@ def oracle(sp, m, root, alphabet, depth, clauses, when):
                 sp.cover('handle-read')
                 if len(comps) >= 2:
                     sp.cover('deep-handle-read')
+                if shared_below is not None and any(id(model_lookup(root, comps[:i])) in shared_below
+                                                    for i in range(1, len(comps))):
+                    sp.cover('alias-handle-read-through-shared-map')
             else:
                 sp.check(isinstance(g, ResourceMap), 'latest-assignment-wins',
                          '%s: %r should denote a map, get gives %r' % (when, key, g))
@@ -245,7 +250,12 @@ def oracle(sp, m, root, alphabet, depth, clauses, when):
                 sp.check(not both, 'handle-xor-map',
                          '%s: in map %r the names %r are a handle and a sub-map at once' % (when, show(comps), both))
     if 'backlink' in clauses:
+        where = slots(root)
         for comps, exp in model_paths(root):
+            if len(where.get(id(exp), ())) > 1 or getattr(exp, 'was_shared', False):
+                sp.cover('shared-map-backlink-skipped')
+                continue                # a map that has (had) two owners: the statement does not say what its
+                #                         .parent/.key should be (the owner that attached it last may be gone)
             holder = real_walk(m, comps[:-1])
             node = real_walk(m, comps)
             if holder is MISSING or node is MISSING:
@@ -258,6 +268,57 @@ def oracle(sp, m, root, alphabet, depth, clauses, when):
                          else type(node).__name__, node.parent))
             sp.check(node.key == comps[-1], 'backlink-key',
                      '%s: node at %r has key %r' % (when, show(comps), node.key))
+
+
+def slots(root):
+    """id(model value) -> set of (id(holder node), name) it is stored under (each map node visited once)"""
+    out, seen = {}, set()
+
+    def rec(node):
+        if id(node) in seen:
+            return
+        seen.add(id(node))
+        for k, v in node.kids.items():
+            out.setdefault(id(v), set()).add((id(node), k))
+            if isinstance(v, Node):
+                rec(v)
+    rec(root)
+    return out
+
+
+def subtree_ids(node):
+    out = set()
+
+    def rec(n):
+        if id(n) in out:
+            return
+        out.add(id(n))
+        for v in n.kids.values():
+            if isinstance(v, Node):
+                rec(v)
+    rec(node)
+    return out
+
+
+def alias_candidates(root, comps):
+    """map nodes already stored in the tree that may ALSO be stored at comps without creating a cycle:
+    (model node, one of its paths), deterministic order"""
+    deepest = root
+    for c in comps[:-1]:
+        nxt = deepest.kids.get(c) if isinstance(deepest, Node) else None
+        if not isinstance(nxt, Node):
+            break
+        deepest = nxt
+    here = model_lookup(root, comps)
+    out, seen = [], set()
+    for path, node in model_paths(root, kinds=(Node,)):
+        if id(node) in seen or node is here:
+            continue
+        seen.add(id(node))
+        if id(deepest) in subtree_ids(node):
+            continue                    # the target position lies inside that map
+        out.append((node, path))
+    return out
 
 
 def old_holder_shadow(root, comps):
@@ -274,7 +335,8 @@ def stored_in(holder, obj):
 
 
 def h_tree(sp, L=2, alphabet=('a', 'b', ''), depth=3, values=(0, 1, 2, 3), ops=('set', 'clear', 'nest'),
-           via=False, clauses=ALL_CLAUSES, reinsert=False, same=True, flavours=('plain',)):
+           via=False, clauses=ALL_CLAUSES, reinsert=False, same=True, flavours=('plain',), alias=False):
+    assert not (alias and reinsert)
     alphabet = tuple(alphabet)
     clauses = tuple(clauses)
     ops = list(ops)
@@ -302,6 +364,8 @@ def h_tree(sp, L=2, alphabet=('a', 'b', ''), depth=3, values=(0, 1, 2, 3), ops=(
                     options += [('re', i) for i in range(len(pool))]
                 if same and model_lookup(root, comps) is not MISSING:
                     options.append(('same', None))      # the object stored under exactly this name right now
+                cands = alias_candidates(root, comps) if alias else []
+                options += [('alias', i) for i in range(len(cands))]
                 how, kind = sp.pick(options, 'val%d' % step)
                 j = 0
                 if via and len(comps) > 1:
@@ -311,6 +375,20 @@ def h_tree(sp, L=2, alphabet=('a', 'b', ''), depth=3, values=(0, 1, 2, 3), ops=(
                     j = sp.pick(splits, 'via%d' % step)
                 if how == 'new':
                     value, mval, desc = make_value(sp, kind, cx)
+                elif how == 'alias':
+                    # a map that is stored elsewhere in the tree gets a second owner (no cycle); only reads are
+                    # checked for it afterwards
+                    mval, at = cands[kind]
+                    value = mval.obj if mval.obj is not None else real_walk(m, at)
+                    if not isinstance(value, ResourceMap):
+                        sp.assume(False)
+                    mval.obj = value
+                    mval.was_shared = True
+                    kind = None
+                    desc = 'the map that is also stored at %r (names %r)' % (show(at), sorted(mval.kids))
+                    sp.cover('alias-insert')
+                    if mval.kids:
+                        sp.cover('alias-insert-nonempty')
                 elif how == 'same':
                     mval = model_lookup(root, comps)
                     if isinstance(mval, TokHandle):
@@ -366,6 +444,10 @@ def h_tree(sp, L=2, alphabet=('a', 'b', ''), depth=3, values=(0, 1, 2, 3), ops=(
                     sp.cover('handle-over-map')
                     if old.kids:
                         sp.cover('subtree-replaced')
+                if alias:
+                    sh = {i for i, w in slots(root).items() if len(w) > 1}
+                    if how != 'alias' and any(id(model_lookup(root, comps[:i])) in sh for i in range(1, len(comps))):
+                        sp.cover('alias-set-through-shared-map')
                 target = m
                 if j:
                     target = real_walk(m, comps[:j])
@@ -419,6 +501,11 @@ def h_tree(sp, L=2, alphabet=('a', 'b', ''), depth=3, values=(0, 1, 2, 3), ops=(
                     seen_names.update(layer)
                 if node.shadow:                 # from the model, so that the tag does not depend on the code
                     sp.cover('clear-with-shadowed-handle')
+                shared_now = {i for i, w in slots(root).items() if len(w) > 1}
+                skip = {id(target.maps.get(k)) for k, v in node.kids.items()
+                        if isinstance(v, Node) and (id(v) in shared_now or v.was_shared)}
+                if id(node) in shared_now:
+                    sp.cover('alias-clear-shared-map')
                 sp.note('(map %r).clear()' % show(comps))
                 target.clear()
                 if node.kids:
@@ -448,6 +535,8 @@ def h_tree(sp, L=2, alphabet=('a', 'b', ''), depth=3, values=(0, 1, 2, 3), ops=(
                                  '%s: after clear() of map %r name %r is still reachable' % (
                                      when, show(comps), a))
                     for k, kid, what in kids:
+                        if id(kid) in skip:
+                            continue            # also stored under another owner: .parent is not prescribed
                         sp.check(kid.parent is None, 'clear-detaches',
                                  '%s: former child %r (%s, %r) of cleared map %r still has parent %r' % (
                                      when, k, what, kid, show(comps), kid.parent))
@@ -490,6 +579,9 @@ _REINS_REQ = ['handle-read', 'deep-handle-read', 'map-over-handle', 'handle-over
               'reassign-same-handle', 'reassign-same-map',
               'reinsert-same-map-other-name', 'reinsert-map-same-map-other-name', 'clear-nonempty']
 
+_ALIAS_REQ = ['alias-insert', 'alias-insert-nonempty', 'alias-handle-read-through-shared-map',
+              'alias-set-through-shared-map', 'shared-map-backlink-skipped', 'handle-read', 'deep-handle-read',
+              'map-over-handle', 'handle-over-map', 'implicit-map', 'alias-clear-shared-map']
 _FLAV_REQ = ['flavour-falsy', 'flavour-empty', 'flavour-equal', 'handle-read', 'deep-handle-read', 'map-over-handle',
              'handle-over-map', 'layered-value', 'clear-nonempty', 'reassign-same-handle', 'reassign-same-map',
              'clear-with-shadowed-handle']
@@ -504,6 +596,8 @@ TIERS = {
         ('tree', dict(L=3, alphabet=['a', 'b'], depth=2, values=[0, 1, 2], ops=['set', 'clear'], reinsert=True),
          {'required': _REINS_REQ}),
         ('tree', dict(L=2, alphabet=['a', 'b'], depth=2, flavours=FLAVOURS), {'required': _FLAV_REQ}),
+        ('tree', dict(L=3, alphabet=['a', 'b'], depth=2, values=[0, 2], ops=['set', 'clear'], same=False, alias=True),
+         {'required': _ALIAS_REQ}),
     ],
     'thorough': [
         ('focus', dict(_SMALL, clauses=['backlink'])),
@@ -518,6 +612,9 @@ TIERS = {
         ('tree', dict(L=3, alphabet=['a', 'b', ''], depth=3, values=[0, 3])),
         ('tree', dict(L=3, alphabet=['a', 'b'], depth=2, flavours=FLAVOURS, reinsert=True),
          {'required': _FLAV_REQ + ['reinsert', 'nest', 'implicit-map']}),
+        ('tree', dict(L=3, alphabet=['a', 'b'], depth=2, alias=True), {'required': _ALIAS_REQ + ['nest', 'layered-value']}),
+        ('tree', dict(L=4, alphabet=['a', 'b'], depth=2, values=[0, 2], ops=['set'], same=False, alias=True),
+         {'required': _ALIAS_REQ[:-1]}),
         ('via', dict(L=4, alphabet=['a'], depth=2, via=True)),
     ],
 }
@@ -540,7 +637,8 @@ BOUNDS = {
              "ops {set, nest, clear of root or any reachable sub-map}, all histories of 2 ops; re-insertion: names a,b, "
              "keys of 1-2 components, values {handle, empty map, pre-populated map, any displaced object}, "
              "ops {set, clear}, all histories of 3 ops; instance flavours falsy / empty / all-equal for every handle and "
-             "map: names a,b, keys of 1-2 components, all values and ops, 2 ops",
+             "map: names a,b, keys of 1-2 components, all values and ops, 2 ops; shared sub-map: names a,b, depth 2, "
+             "values {handle, pre-populated map, a map already stored elsewhere}, ops {set, clear}, 3 ops",
     'thorough': "as quick plus: 2 ops with assignment through any reachable sub-map (via); names a,'' depth 3: "
                 "all histories of 3 ops; names a,b,'' depth 2: 3 ops; names a,b,'' depth 3 with values {handle, layered map}: 3 ops; "
                 "name a depth 2 with via: 4 ops; re-insertion of displaced objects: names a,b,'' depth 2 all ops: 3 ops; "
@@ -550,6 +648,10 @@ ASSUMPTIONS = [
     'flavour entries: all handles and maps of a history are instances of subclasses that are falsy (__bool__ '
     'False), empty (__len__ 0) or equal to everything (__eq__ True, constant __hash__); the oracle is the same, '
     'it only ever compares identities',
+    'aliasing entries (alias=True): a set may store a map that is already stored elsewhere in the tree under a '
+    'second owner (never creating a cycle); get / [] / chained [] through both owners must agree with the model '
+    'after every operation; parent/key of a map with two owners and its detachment by clear() are not checked '
+    '(not fixed by the statement)',
     'every assigned value is a fresh object, or the very object already stored under exactly that name in that map '
     '(re-assignment in place), or (reinsert entries) an object stored earlier in the history that is '
     'stored nowhere when it is assigned again: displaced by a later assignment or dropped by clear(); an object is '
@@ -564,7 +666,7 @@ ASSUMPTIONS = [
     'correct content and back-links',
     'get is called with an explicit default sentinel; the value of the implicit default is not checked',
 ]
-OUTSIDE = ['the same map or handle object inserted at two places', 'split_char reassigned / other separators',
+OUTSIDE = ['back-links of a map stored at two places, the same handle stored at two places, cyclic trees', 'split_char reassigned / other separators',
            'non-string keys (assert)', 'histories longer than the bound, names outside the alphabet']
 
 TECHNIQUE = 'bounded symbolic execution (symx/z3) of insertion/clear histories over resource trees, tree reference model'
